@@ -20,7 +20,7 @@ RULE = ('each case = one endpoint fed 1..200 PING / PING-ACK frames (unique coun
         'call must still be answered: compared with a copy of the endpoint fed frame by frame); non-trivial = at least one PING answered and compared; distinct = hash of '
         'delivered bytes')
 MINIMA = {'pings_matched': 2000, 'ping_acks_delivered': 300, 'local_ping_ok': 200, 'local_ping_refused': 200, 'local_ping_non_bytes_refused': 100,
-          'multi_ping_calls': 200, 'raising_calls_with_pings_compared': 1000, 'pure_ping_cases': 500, 'pure_ping_cases_idle_connection': 100}
+          'multi_ping_calls': 200, 'cases_reading_output_in_pieces': 3000, 'rounds_with_a_full_window_of_unsent_output': 300, 'raising_calls_with_pings_compared': 1000, 'pure_ping_cases': 500, 'pure_ping_cases_idle_connection': 100}
 
 
 def n_cases(tier):
@@ -31,6 +31,10 @@ def run_case(idx, rng, tier, rep):
     e_client = rng.random() < 0.5
     t = core.Tap(core.make_conn(e_client), keep_log=True)
     t.call('initiate_connection')
+    if rng.random() < 0.5:
+        import random
+        t.read_rng = random.Random(rng.random())       # the application reads its output in two pieces now and then
+        rep.count('cases_reading_output_in_pieces')
     pg = gen.PeerGen(rng, e_client, hostile=0.0, hdr_hostile=0.0)
     inp = wire.StreamParser(expect_preface=not e_client)
     counter = [idx * 1000]
@@ -60,6 +64,7 @@ def run_case(idx, rng, tier, rep):
     dead = False
     all_in = []
     rounds = rng.choice([2, 5, 12])
+    st_backlog = [False]
     for rnd in range(rounds):
         if dead or goaway_seen:
             break
@@ -71,6 +76,21 @@ def run_case(idx, rng, tier, rep):
             nsid += 2
         if rng.random() < 0.5:
             local_ping(t, rng, rep, own_pings)
+        if e_client and rng.random() < 0.12 and not st_backlog[0]:
+            # the application has a whole connection window of its own output queued and not yet written to the socket when
+            # the peer's PINGs arrive: they are answered all the same
+            r = t.call('send_headers', nsid, gen.valid_headers(rng, 'request'), _drain=False)
+            if r.ok:
+                pg.note_e_stream(nsid)
+                left = 65535
+                while left > 0:
+                    n = min(left, 16384)
+                    if not t.call('send_data', nsid, b'q' * n, _drain=False).ok:
+                        break
+                    left -= n
+                st_backlog[0] = True
+                rep.count('rounds_with_a_full_window_of_unsent_output')
+            nsid += 2
         # build a burst
         for _ in range(rng.choice([1, 3, 10, 40, 200]) if rng.random() < 0.3 else rng.choice([1, 2, 5])):
             r = rng.random()
